@@ -35,7 +35,7 @@ C2S_EVENT_CH = {"CE0": 1, "CEM": 2, "CT": 3}
 
 
 def gen_script(rng, nclients=None, policy=None, track=None, auth=None, length=None, periodic=False,
-               late_join=True, sessions=False, weights=None, max_size=None, events=False):
+               late_join=True, sessions=False, weights=None, max_size=None, events=False, rel=False):
     w = dict(sop=5.0, sframe=3.0, cframe=2.5, deliver=4.0, drop=0.6, session=0.25 if sessions else 0.0,
              sev=2.0 if events else 0.0, cev=1.2 if events else 0.0, edeliver=3.0 if events else 0.0)
     if weights:
@@ -46,7 +46,7 @@ def gen_script(rng, nclients=None, policy=None, track=None, auth=None, length=No
     auth = auth or rng.choice(["none", "none", "custom"])
     length = length or rng.choice([25, 40, 60, 90])
     kinds = [0, 1, 2, 3] + ([4] if periodic else [])
-    lines = ["cfg policy=%s auth=%s track=%d nclients=%d timeout=10000" % (policy, auth, int(track), nclients),
+    lines = ["cfg policy=%s auth=%s track=%d nclients=%d timeout=10000%s" % (policy, auth, int(track), nclients, " rel=1" if rel else ""),
              "start", "sframe 0 10"]
     wd = World()
     connected = {}            # slot -> dict(authorized)
@@ -104,6 +104,14 @@ def gen_script(rng, nclients=None, policy=None, track=None, auth=None, length=No
             return
         e = rng.choice(ents)
         st = wd.alive[e]
+        if rel and rng.random() < 0.15:
+            # relationship registered for synchronized replication: set / replace / clear
+            if rng.random() < 0.75 and len(ents) > 1:
+                t = rng.choice([x for x in ents if x != e])
+                lines.append("sop rel %d %d" % (e, t))
+            else:
+                lines.append("sop unrel %d" % e)
+            return
         if r < 0.50:
             ks = [k for k in st["comps"] if k != 3 or True]
             if ks:
